@@ -14,4 +14,5 @@ INVARIANT Refute_startNameIgnored
 INVARIANT Refute_ligIdxIgnoresName
 INVARIANT Refute_ligNoTemplate
 INVARIANT Refute_splitLosesBuild
+INVARIANT Refute_breakAtFirstBeyond
 CHECK_DEADLOCK FALSE
